@@ -176,3 +176,22 @@ fn read_varint(reader: &mut Cursor<&[u8]>) -> Result<u64> {
     }
     Ok(n)
 }
+
+#[cfg(rbp_verif)]
+pub(crate) fn verif_read_varint(bytes: &[u8]) -> Result<(u64, u64)> {
+    let mut reader = Cursor::new(bytes);
+    let n = read_varint(&mut reader)?;
+    Ok((n, reader.position()))
+}
+
+#[cfg(rbp_verif)]
+pub(crate) fn verif_decode_record(key: &[u8], value: &[u8]) -> Result<String> {
+    if !is_block_index_record(key) {
+        return Ok(String::from("foreign"));
+    }
+    let r = BlockIndexRecord::from(&key[1..], value)?;
+    Ok(format!(
+        "{} {} {} {} {} {} {}",
+        r.block_hash, r.version, r.height, r.status, r.tx_count, r.blk_index, r.data_offset
+    ))
+}
